@@ -343,6 +343,55 @@ func hostile(tp *simrt.Tape) string {
 	return b.String()
 }
 
+// hostileDigest returns "sha256:" followed by a string that is exactly (or
+// almost) 64 characters long once unescaped, built from dot segments,
+// separators, hex runs and characters adjacent to the hex ranges: names that
+// pass a length check and a sloppy character check, and that the store would
+// turn into a path.
+func hostileDigest(tp *simrt.Tape) string {
+	pieces := [][2]string{{"..", "%2E%2E"}, {"..", ".."}, {"/", "%2F"}, {".", "."}, {"./", ".%2F"}, {"../", "..%2F"}, {"feed/", "feed%2F"},
+		{"data", "data"}, {"0a", "0a"}, {"g", "g"}, {":", ":"}, {"-", "-"}, {"AF", "AF"}, {" ", "%20"}, {"\\", "%5C"}, {"@", "@"}, {"`", "%60"}}
+	target := 64
+	switch tp.Draw(8) {
+	case 6:
+		target = 63
+	case 7:
+		target = 65
+	}
+	var enc strings.Builder
+	n := 0
+	// a path-like head, then filler that keeps the shape
+	for n < target {
+		pc := pieces[tp.Draw(len(pieces))]
+		if n > 24 {
+			pc = [][2]string{{"./", ".%2F"}, {"0", "0"}, {".", "."}}[tp.Draw(3)]
+		}
+		if n+len(pc[0]) > target {
+			pc = [2]string{"0", "0"}
+		}
+		enc.WriteString(pc[1])
+		n += len(pc[0])
+	}
+	return "sha256:" + enc.String()
+}
+
+// digestName returns the valid digest, a hostile name, or a hostile name of
+// digest shape.
+func digestName(tp *simrt.Tape, valid string) string {
+	switch k := tp.Draw(10); {
+	case k < 4:
+		return valid
+	case k < 7:
+		return hostile(tp)
+	}
+	return hostileDigest(tp)
+}
+
+// hexName is digestName for endpoints that take the bare hex part.
+func hexName(tp *simrt.Tape, valid string) string {
+	return strings.TrimPrefix(digestName(tp, "sha256:"+valid), "sha256:")
+}
+
 // name returns a valid name (0) or a hostile one.
 func name(tp *simrt.Tape, valid string) string {
 	if !tp.Chance(750) {
@@ -551,19 +600,19 @@ func (w *world) origin(nReq int, wg *ssync.WaitGroup) {
 			u := name(tp, "00000000-0000-0000-0000-000000000000")
 			w.serve(srv, "dup-commit-uid", "PUT", "/internal/duplicate/namespace/"+ns+"/blobs/"+d.String()+"/uploads/"+u, nil, []byte(`{"delay":0}`), u, upload)
 		case 5:
-			h := name(tp, d.String())
+			h := digestName(tp, d.String())
 			w.serve(srv, "get-blob", "GET", "/namespace/"+name(tp, ns)+"/blobs/"+h, nil, nil, "", "")
 		case 6:
-			h := name(tp, d.String())
+			h := digestName(tp, d.String())
 			w.serve(srv, "stat-blob", "HEAD", "/internal/namespace/"+name(tp, ns)+"/blobs/"+h+"?local=true", nil, nil, "", "")
 		case 7:
-			h := name(tp, d.String())
+			h := digestName(tp, d.String())
 			w.serve(srv, "delete-blob", "DELETE", "/internal/blobs/"+h, nil, nil, "", "")
 		case 8:
-			h := name(tp, d.String())
+			h := digestName(tp, d.String())
 			w.serve(srv, "get-metainfo", "GET", "/internal/namespace/"+name(tp, ns)+"/blobs/"+h+"/metainfo", nil, nil, "", "")
 		case 9:
-			h := name(tp, d.String())
+			h := digestName(tp, d.String())
 			w.serve(srv, "start-hostile-digest", "POST", "/internal/blobs/"+h+"/uploads", nil, nil, "", "")
 		}
 	}
@@ -607,13 +656,13 @@ func (w *world) agent(nReq int, wg *ssync.WaitGroup) {
 		case 0:
 			w.serve(srv, "get-tag", "GET", "/tags/"+name(tp, "repo%3Av1"), nil, nil, "", "")
 		case 1:
-			h := name(tp, d.Hex())
+			h := hexName(tp, d.Hex())
 			r := w.serve(srv, "download-blob", "GET", "/namespace/"+name(tp, "ns")+"/blobs/"+h, nil, nil, "", "")
 			if r.status == 200 && bytes.Equal(r.body, blob) {
 				s.Probe("agent_blob_served")
 			}
 		case 2:
-			w.serve(srv, "delete-blob", "DELETE", "/blobs/"+name(tp, d.Hex()), nil, nil, "", "")
+			w.serve(srv, "delete-blob", "DELETE", "/blobs/"+hexName(tp, d.Hex()), nil, nil, "", "")
 		case 3:
 			w.serve(srv, "preload-tag", "GET", "/preload/tags/"+name(tp, "repo%3Av1"), nil, nil, "", "")
 		}
